@@ -598,6 +598,26 @@ Proof.
   - vm_compute. auto.
 Qed.
 
+(* a concrete history: the hypotheses are satisfiable and every branch of the FIFO is taken: two
+   senders, an empty datagram, a datagram with trailing bytes beyond its length field, one dropped
+   because the buffer is full, one with a length field below 8, reads in order, then ErrWouldBlock *)
+Example fifo_example :
+  let ops := [OBind (inr 53);
+              OArrive 1 [10;0;0;2] 8 [15;160; 0;53; 0;8; 0;0];
+              OArrive 2 [10;0;0;3] 12 [15;161; 0;53; 0;11; 0;0; 7;8;9; 200;201];
+              OArrive 1 [10;0;0;2] 9 [15;160; 0;53; 0;9; 0;0; 1];
+              OArrive 1 [10;0;0;2] 9 [15;160; 0;53; 0;7; 0;0; 1];
+              ORead; ORead; ORead] in
+  Forall arrival_ok ops /\
+  reads_of (snd (run ops (newEndpoint 3))) =
+    [mkDg 1 [10;0;0;2] 4000 []; mkDg 2 [10;0;0;3] 4001 [7;8;9]] /\
+  accepted ops 3 = [mkDg 1 [10;0;0;2] 4000 []; mkDg 2 [10;0;0;3] 4001 [7;8;9]] /\
+  last (snd (run ops (newEndpoint 3))) OutNone = OutRead (RErr ErrWouldBlock).
+Proof.
+  cbv zeta. split; [|split; [|split]]; try (vm_compute; reflexivity).
+  repeat constructor; cbn; lia.
+Qed.
+
 (* ---- shutdown of the read side ---- *)
 Lemma shutdown_read_effect e wr :
   (state e = stateBound \/ state e = stateConnected) ->
